@@ -154,6 +154,10 @@ def monotonic_factorization(arr: ArrayType1D) -> Tuple[int, np.ndarray, pd.Index
         return 0, np.empty(0, dtype=np.uint32), pd.Index([], dtype=pd_type)
 
     arr_list = _val_to_numpy(arr, as_list=True)
+    if any(a.dtype.kind == "O" for a in arr_list):
+        # e.g. Arrow booleans holding nulls are converted to Python objects, which the jitted run
+        # detector cannot compare: report an empty monotonic prefix (general route)
+        return 0, np.empty(0, dtype=np.uint32), pd.Index([], dtype=pd_type)
     if any(len(a) == 0 for a in arr_list) and any(len(a) > 0 for a in arr_list):
         # the run detector reads the first element of every chunk it enters
         arr_list = NumbaList([a for a in arr_list if len(a) > 0])
